@@ -364,6 +364,11 @@ func appendSlice(expr ast.Expr, lhsV reflect.Value, rhsV reflect.Value) (reflect
 			if rhsT == interfaceType {
 				value = value.Elem()
 			}
+			if !value.IsValid() {
+				// a nil element becomes the zero value of the element type
+				lhsV = reflect.Append(lhsV, reflect.Zero(lhsT))
+				continue
+			}
 			if lhsT == value.Type() {
 				lhsV = reflect.Append(lhsV, value)
 			} else if value.Type().ConvertibleTo(lhsT) {
